@@ -406,6 +406,27 @@ func olvmInputs(w *warm) []c18input {
 			out = append(out, c18input{"OLVM.Data", []string{"nested-frame-reverts", "nested-frame-invalid", "nested-frame-out-of-gas", "nested-frame-succeeds"}[k] + "-after-creating-and-touching-accounts", bz})
 		}
 	}
+	// a deployed contract that calls itself, lets the inner frame fail after it touched the contract's storage,
+	// and goes on using that storage (try / catch / retry); also with the inner frame succeeding
+	{
+		e2 := w.w.EthUsers[2%len(w.w.EthUsers)]
+		key2 := w.w.EthKeys[e2.Addr.String()]
+		n2, _ := gen.KeeperNonce(w.state, e2.Addr)
+		for k, innerEnd := range [][]byte{{0x60, 0x00, 0x60, 0x00, 0xfd}, {0xfe}, {0x00}} {
+			// CALLDATASIZE PUSH1 0x17 JUMPI | outer: CALL(self, 1 byte of calldata) POP SLOAD(0) POP SSTORE(1,1)... STOP | inner: JUMPDEST SLOAD(0) POP SSTORE(0,7) <end>
+			outer := []byte{0x36, 0x60, 0x1d, 0x57, 0x60, 0x00, 0x60, 0x00, 0x60, 0x01, 0x60, 0x00, 0x60, 0x00, 0x30, 0x5a, 0xf1, 0x50, 0x60, 0x00, 0x54, 0x50, 0x60, 0x01, 0x60, 0x01, 0x55, 0x60, 0x00, 0x54, 0x50, 0x00}
+			outer[2] = byte(len(outer))
+			inner := append([]byte{0x5b, 0x60, 0x00, 0x54, 0x50, 0x60, 0x07, 0x60, 0x00, 0x55}, innerEnd...)
+			runtime := append(append([]byte{}, outer...), inner...)
+			nn := byte(len(runtime))
+			init := append([]byte{0x60, nn, 0x60, 12, 0x60, 0, 0x39, 0x60, nn, 0x60, 0, 0xf3}, runtime...)
+			deploy := gen.OLVMTx(c, e2, key2, n2, nil, big.NewInt(0), init, 300000, "1000000000", chain, fmt.Sprint(n2))
+			addr := ethcrypto.CreateAddress(ethcmn.BytesToAddress(e2.Addr), n2)
+			call := gen.OLVMTx(c, e2, key2, n2+1, &addr, big.NewInt(0), nil, 200000+int64(k), "1000000000", chain, fmt.Sprint(n2+1))
+			out = append(out, c18input{"OLVM.<call of a deployed contract>", []string{"inner-frame-reverts", "inner-frame-invalid", "inner-frame-succeeds"}[k] + "-after-touching-the-contract's-own-storage", call})
+			c18Prelude.Store(string(call), [][][]byte{{deploy}})
+		}
+	}
 	// hostile fields around a plain transfer
 	to := ethcmn.BytesToAddress(w.w.EthUsers[1].Addr)
 	// the price currency is the one fee field the EVM-style signature does not cover: a valid transfer with
@@ -655,12 +676,27 @@ func checkC18(tier string) int {
 		total += len(inputs)
 		// group by generator family so that a batch's failure is cheap to bisect
 		sort.SliceStable(inputs, func(i, j int) bool { return inputs[i].where < inputs[j].where })
-		for i := 0; i < len(inputs); i += 8 {
-			j := i + 8
-			if j > len(inputs) {
-				j = len(inputs)
+		// (a batch shares the prelude blocks of its first input: inputs with different preludes are not mixed)
+		preludeKey := func(in c18input) string {
+			v, ok := c18Prelude.Load(string(in.bytes))
+			if !ok {
+				return ""
+			}
+			k := ""
+			for _, blk := range v.([][][]byte) {
+				for _, tx := range blk {
+					k += fmt.Sprintf("%x/", ethcrypto.Keccak256(tx)[:6])
+				}
+			}
+			return k
+		}
+		for i := 0; i < len(inputs); {
+			j := i + 1
+			for j < len(inputs) && j < i+8 && preludeKey(inputs[j]) == preludeKey(inputs[i]) {
+				j++
 			}
 			batches = append(batches, batch{wm, inputs[i:j]})
+			i = j
 		}
 	}
 	r.Gate("inputs", 300)
